@@ -690,7 +690,23 @@ def needs_threads(m):
 
 
 def compile_driver(workdir, c_files, cc='gcc', cflags=('-O0',), threads=False, exe='drv', extra=(), timeout=600):
-    cmd = [cc] + list(cflags) + ['-w', '-I', os.path.join(REPO, 'w2c2')]
+    cflags = list(cflags)
+    if '-std=c89' in cflags and threads:
+        # the pthread flavour of the runtime header needs POSIX declarations (clock_gettime) that strict ISO mode hides: modules
+        # with shared memories are built in the GNU dialect of the same language level
+        cflags[cflags.index('-std=c89')] = '-std=gnu89'
+    if '-std=c89' in cflags and 'driver.c' in c_files:
+        # strict ISO C90 applies to the GENERATED code; the framework's driver (strtoull, long long formats) is compiled on its
+        # own in the default dialect and linked against it
+        relaxed = [f for f in cflags if f != '-std=c89']
+        try:
+            r0 = run([cc] + relaxed + ['-w', '-I', os.path.join(REPO, 'w2c2'), '-c', 'driver.c', '-o', 'driver.vo'], cwd=workdir, timeout=timeout)
+        except subprocess.TimeoutExpired:
+            raise InfraError('C compiler timed out on the driver')
+        if r0.returncode != 0:
+            return r0
+        c_files = [f for f in c_files if f != 'driver.c'] + ['driver.vo']
+    cmd = [cc] + cflags + ['-w', '-I', os.path.join(REPO, 'w2c2')]
     if threads:
         cmd += ['-DWASM_THREADS_PTHREADS', '-I', os.path.join(REPO, 'futex')]
     cmd += list(c_files)
